@@ -5,10 +5,45 @@ import BareProofs.C08
 /-!
 # C01 — T3 "ticked erasure" and T4
 
-`execS` (BareModel/StructuredS.lean) is the plain source-level reading of a structured program; `execT`
-(BareModel/Structured.lean) is the *ticked* reading that T2 proves equal to the jump machine on the lowered code.
-This file proves that the two agree on everything observable (kind of outcome, returned value / error, world = log and
-heap, user-visible variables), and composes T1, T2, T3 (and `C08.cache_transparent`) into T4.
+`execS` (BareModel/StructuredS.lean: `callS / execSS / execSB / execSE / forS`, `runS`) is the plain source-level reading
+of a structured program — no statement counter, no hidden variables, conditions evaluated as written, `while` re-tests
+before every iteration.  `execT` (BareModel/Structured.lean) is the *ticked* reading that T2 (`C01Exact`) proves **equal**
+to the jump machine on the lowered code.  This file proves that the two agree on everything observable, in both
+directions, and composes T1 (`parseLines_render`), C08 (`cache_transparent`), T2 and T3 into T4.
+
+Main statements (all for every program size / nesting depth / fuel / host / world):
+
+* `ticked_erasure` (T3, `maxStatements = 0`): ticked terminates ⇒ pure terminates (all large fuels) with the same kind of
+  outcome, same value / error, `StRel`-related final state; and conversely.  `termination_iff`.
+  Halves: `ticked_erasure_forward`, `ticked_erasure_converse`.
+* `ticked_erasure_budget` / `ticked_erasure_gen` (any budget): unless the ticked run ends in `exceeded`, it agrees with
+  the pure reading — `tick` is the only place `count` / `maxStatements` are consulted.
+* `parse_exec_structured` (T4): `execute cfg fuel (parse (render B))` — the real label-caching machine — agrees with
+  `runS scfg k B` in both directions; `parse_exec_structured_budget` (forward, any budget).
+* `Tiny.while_continue_counterexample` (finding F7): with a `continue` in a `while` the two readings differ.
+
+Hypotheses and why each is needed:
+
+* `Agree cfg scfg start`: same host / `builtins` / `debug`, and `TablesAgree`: the machine's function table is the lowering
+  of the structured table (function values are table indices; calls are related by induction on fuel through T2's
+  `run_body_eq`).
+* `ProgOK B`, `TablesOK scfg` (= `FuncOK` for every definition): `NoRawB` (raw `label`/`jump` have no structured meaning; T2
+  needs it), `NoIncludeB` (an included file is jump-level code), `NoReservedB` (a user identifier spelled like a hidden
+  `__bareScript…` variable is the same variable: user code could read / overwrite the loop state), `NoWhileContinueB` (F7),
+  `WellNested` / `wnB` (`break` / `continue` outside a loop: rejected by the parser; T1 needs it, and the ticked semantics
+  treats them as no-ops).
+* `TruthyBool host`: the lowering tests `!c` and jumps, the source tests `c`: they agree iff the host's truth value of a
+  boolean is that boolean.
+* `HostNoReserved host`: a library function that reads / writes a `__bareScript…` global (`systemGlobalGet/Set` with such a
+  name) can observe / corrupt the hidden state of a global-scope `for`.
+* `StRel st st'`: the two runs start from the same world and the same user-visible globals (hidden entries and `count` free).
+
+Structure: forward — frame lemmas (`evalExpr_sim`, `runTree_sim` in `C01EraseLemmas`), ticks are invisible (`tsim_tick`),
+construct lemmas (`chain_sim`, `while_sim`, `forAfter_sim` / `loopF_sim` / `for_sim` with the invariant `ForInv`: the hidden
+variables hold the interpreter's values), the mutual recursion `eraseS / eraseB / eraseE` over the syntax, calls by
+induction on the machine fuel (`callSim_lt`).  Converse — the same frame lemmas with the roles of the two sides swapped,
+"the ticked side converges" (`TConv`, `CSim`), the loop bound of `loopW` / `loopF` is never binding (`loopW_irrel`,
+`loopF_irrel`), one induction on the pure fuel (`allC`).
 -/
 
 set_option linter.unusedSimpArgs false
@@ -43,6 +78,7 @@ theorem user_expr {f : Nat} (hf : f ≤ F) {l l' : Option Env} (hl : LRel l l') 
       OSim cfg.maxStatements st1.globals (evalExpr cfg (cv f') l c st1) (fun k => evalExpr cfg (callS scfg k) l' c st') :=
   fun f' st1 hlt hs1 => evalExpr_sim cfg (Hc f' (by omega)) hl c st1 st' hc hs1
 
+omit ag htb Hc in
 /-- the block of a branch followed by `label done` / `jump done` -/
 theorem tsim_thenSkip {L : Nat} (hL : L = cfg.maxStatements) {lk : LK} {i : Nat} {l0 : Option Env} {g0 : Env} {t : TOut W}
     {S : Nat → SOut W} (h : TSim L F lk i l0 g0 t S) :
@@ -79,7 +115,7 @@ theorem chain_sim (lk : LK) (c : Expr) (t : List SStmt) (e : SElse) (i : Nat) (h
   | true =>
     simp only [Bool.not_true, Bool.false_eq_true, if_false, if_true]
     exact TSim.weaken (KeepL.refl i l) (GKeep.of_all l i hk) (by omega)
-      (tsim_thenSkip ag htb cv Hc rfl (hB f' l st2 l' st2' (by omega) hl hs2))
+      (tsim_thenSkip rfl (hB f' l st2 l' st2' (by omega) hl hs2))
   | false =>
     simp only [Bool.not_false, Bool.false_eq_true, if_false, if_true]
     exact TSim.weaken (KeepL.refl i l) (GKeep.of_all l i hk) (by omega) (hE f' l st2 l' st2' (by omega) hl hs2)
@@ -584,7 +620,7 @@ theorem eraseE (lk : LK) : ∀ (e : SElse) (i : Nat), okE lk e = true →
       simp only [okE] at h
       rw [execTE_els]
       refine TSim.step (S0 := fun k => execSB scfg k b l' st') ?_ (fun k => by rw [execSE])
-      exact tsim_thenSkip ag htb cv Hc rfl (eraseB lk b i h f l st l' st' hf hl hs)
+      exact tsim_thenSkip rfl (eraseB lk b i h f l st l' st' hf hl hs)
   | .elif c t e, i, h, f, l, st, l', st', hf, hl, hs => by
       simp only [okE, Bool.and_eq_true] at h
       rw [execTE_elif]
@@ -1014,12 +1050,12 @@ theorem execute_parse_eq_runT₀ (B : List SStmt) (hB : ProgOK B) (hfid : FidsIn
   refine ⟨lowerProgram B, parseLines_render B hB.wellNested hfid (incB_of_noInclude B hB.noInclude), ?_⟩
   rw [C08.execute_eq, execute₀_lowered cfg base B hB.noRaw]
 
-/-- **T4 `parse_exec_structured` (forward), unlimited budget**: for every structured program `B` satisfying the
+/-- **T4, forward half, unlimited budget** (`parse_exec_structured` below has both directions): for every structured program `B` satisfying the
 hypotheses, the lines a user writes for `B` parse (to the lowering of `B`), and whenever `execute_script` on that
 statement list (the real, label-caching machine) terminates, the pure source-level reading `execS B` terminates — for
 every sufficiently large fuel — with the same kind of outcome, the same returned value / runtime error, the same world
 (log, heap, …) and the same user-visible globals. -/
-theorem parse_exec_structured (hmax : cfg.maxStatements = 0) (B : List SStmt) (hB : ProgOK B) (hfid : FidsInOrder B)
+theorem parse_exec_structured_forward (hmax : cfg.maxStatements = 0) (B : List SStmt) (hB : ProgOK B) (hfid : FidsInOrder B)
     (fuel : Nat) (base : Option String) (st st' : State W) (hs : StRel st st') :
     ∃ P, parseLines (renderB B) = .ok P ∧
       (execute cfg fuel P base st ≠ .oof →
@@ -1787,7 +1823,7 @@ cache) agrees with the pure source-level reading `execS B` in both directions: w
 other terminates for every sufficiently large fuel with the same kind of outcome, the same returned value / runtime
 error, the same world (log, heap, …) and the same user-visible globals.
 Composition of T1 (`parseLines_render`), C08 (`cache_transparent`), T2 (`execute₀_lowered`) and T3. -/
-theorem parse_exec_structured_iff (hmax : cfg.maxStatements = 0) (B : List SStmt) (hB : ProgOK B) (hfid : FidsInOrder B)
+theorem parse_exec_structured (hmax : cfg.maxStatements = 0) (B : List SStmt) (hB : ProgOK B) (hfid : FidsInOrder B)
     (base : Option String) (st st' : State W) (hs : StRel st st') :
     ∃ P, parseLines (renderB B) = .ok P ∧
       (∀ fuel, execute cfg fuel P base st ≠ .oof →
@@ -1836,7 +1872,7 @@ def host : Host TW :=
   { truthy := truthy, binop := binop, neg := id, lib := lib, other := fun _ _ w => .ret (.fail .null) w,
     notCallable := fun _ w => w, logFailure := id, newArray := fun _ w => (.null, w), builtin := fun _ => none }
 
-theorem host_truthyBool : TruthyBool host := fun b w => rfl
+theorem host_truthyBool : TruthyBool host := fun _ _ => rfl
 
 theorem host_noReserved : HostNoReserved host := by
   refine ⟨fun name args w => ?_, fun k args w => TreeOK.ret _ _⟩
@@ -1936,7 +1972,29 @@ theorem nv_tablesOK : TablesOK nvSCfg := by
 example (base : Option String) (st' : State TW) (hs : StRel st0 st') :=
   ticked_erasure nv_agree host_truthyBool host_noReserved nv_tablesOK rfl nvProg nv_progOK base st0 st' hs
 example (base : Option String) (st' : State TW) (hs : StRel st0 st') :=
-  parse_exec_structured_iff nv_agree host_truthyBool host_noReserved nv_tablesOK rfl nvProg nv_progOK (by decide) base st0 st' hs
+  parse_exec_structured nv_agree host_truthyBool host_noReserved nv_tablesOK rfl nvProg nv_progOK (by decide) base st0 st' hs
+
+/-- the same with a statement budget -/
+def nvCfgB (max : Nat) : Config TW :=
+  { host := host, funs := fun id => (nvSCfg.sfuns id).map (lowerDef (nvStart id)), maxStatements := max }
+
+theorem nv_agreeB (max : Nat) : Agree (nvCfgB max) nvSCfg nvStart := ⟨rfl, rfl, rfl, fun _ => rfl⟩
+
+example (max fuel : Nat) (base : Option String) (st' : State TW) (hs : StRel st0 st') :=
+  ticked_erasure_budget (nv_agreeB max) host_truthyBool host_noReserved nv_tablesOK nvProg nv_progOK fuel base st0 st' hs
+example (max fuel : Nat) (base : Option String) (st' : State TW) (hs : StRel st0 st') :=
+  parse_exec_structured_budget (nv_agreeB max) host_truthyBool host_noReserved nv_tablesOK nvProg nv_progOK (by decide) fuel base
+    st0 st' hs
+
+private def isExceeded {W : Type} : Res W → Bool
+  | .err (.exceeded _) _ => true
+  | _ => false
+
+/-- why the budgeted corollary excludes `exceeded`: with `maxStatements = 20` the ticked run is stopped by the budget
+(the pure run has none and finishes, see above); with 200 it finishes with the same log -/
+example : isExceeded (runT₀ (nvCfgB 20) 1000 nvProg none st0) = true ∧
+    resWorld (runT₀ (nvCfgB 200) 1000 nvProg none st0) = some [.num 0, .num 2, .num 111] := by
+  constructor <;> decide +kernel
 
 /-- the pure reading: `f(3)` logs `0`, `2` (the `for` skips `1`), returns 111, which the script logs -/
 example : resWorld (runS nvSCfg 100 nvProg st0) = some [.num 0, .num 2, .num 111] := by decide +kernel
@@ -1944,7 +2002,7 @@ example : resWorld (runS nvSCfg 100 nvProg st0) = some [.num 0, .num 2, .num 111
 /-- … and so does the label-caching jump machine on the parsed text: by the theorem, not by running it -/
 example : ∃ P, parseLines (renderB nvProg) = .ok P ∧
     ∃ N, ∀ f, N ≤ f → resWorld (execute nvCfg f P none st0) = some [.num 0, .num 2, .num 111] := by
-  obtain ⟨P, hP, _, hconv⟩ := parse_exec_structured_iff nv_agree host_truthyBool host_noReserved nv_tablesOK rfl nvProg
+  obtain ⟨P, hP, _, hconv⟩ := parse_exec_structured nv_agree host_truthyBool host_noReserved nv_tablesOK rfl nvProg
     nv_progOK (by decide) none st0 st0 (StRel.refl st0)
   have hS : resWorld (runS nvSCfg 100 nvProg st0) = some [.num 0, .num 2, .num 111] := by decide +kernel
   have hne : runS nvSCfg 100 nvProg st0 ≠ .oof := by intro h; rw [h] at hS; cases hS
